@@ -125,6 +125,13 @@ class IpcEnv:
                     if nframes + j == plan["frame"]:
                         off = cut_offset(self.ch, plan["cls"], fr[1])
                         p = tr.conn.pipes[tr.side]
+                        if plan["kind"] == "stall":
+                            # not a loss: the stream goes silent at this byte for a while, then continues
+                            p.stall_at = fr[0] + off
+                            p.stall_for = plan.get("stall_for", 2.5)
+                            self.cut_fired = dict(plan, offset=off, frame_len=fr[1], abs=fr[0] + off)
+                            self.w.stats[f"fault_stall_{plan['cls']}"] += 1
+                            continue
                         p.cut_at = fr[0] + off
                         p.cut_kind = plan["kind"]
                         self.cut_fired = dict(plan, offset=off, frame_len=fr[1], abs=fr[0] + off)
